@@ -450,11 +450,16 @@ PROPERTIES["C18"] = dict(
              "all 256 permission bytes x all 13 resource kinds (Template + 12 MIME kinds)", [("p", "u8"), ("k", "u8")], "c18_redirect_gate",
              asserts="get_redirect_resource serves a resource <=> it requires no permission and its kind is redirectable (not a template, not fn/javascript)",
              stubs=["ResourceStorage::get_internal_resource (name -> resource lookup in HashMap<String,Resource>) -> returns the one harness-built resource", "alloc::fmt::format -> empty string (the data: URL text is not inspected)", "std::hash::RandomState::new -> fixed seed (empty maps only)"]),
+        kern("C18.scriptlet_gate", "src/resources/resource_storage.rs", "h_resource_storage.rs", "c18_scriptlet_gate", [Q, T], 30, 600, 8,
+             ["resources::resource_storage::ResourceStorage::get_permissioned_resource", "resources::PermissionMask::is_injectable_by"],
+             "all 256 x 256 (required, granted) pairs, resource present or absent", [("required", "u8"), ("granted", "u8"), ("found", "bool")], "c18_scriptlet_gate",
+             asserts="get_permissioned_resource (the gate of the scriptlet and of each transitive dependency) returns the resource <=> it exists and every required bit is granted; InsufficientPermissions / NoMatchingScriptlet exactly otherwise",
+             stubs=["ResourceStorage::get_internal_resource (name -> resource lookup in HashMap<String,Resource>) -> returns the one harness-built resource or None", "std::hash::RandomState::new -> fixed seed (empty maps only)"]),
         kern("C18.sep", "src/resources/resource_storage.rs", "h_resource_storage.rs", "c18_sep", [T], 2000, 5400, 16, ["resources::resource_storage::index_next_unescaped_separator"],
              "3 printable ASCII bytes, symbolic length", [("b", B(3)), ("l", "usize")], "c18_sep", asserts="no panic; returned index in range, points at an unescaped ','; None only if every ',' is escaped", panic_free=True),
     ],
     level_text="Decides, for all 256x256 mask pairs, that the permission gate predicate every scriptlet/dependency/redirect decision calls is exactly 'required bits are a subset of granted bits'; and that the real get_redirect_resource (name lookup stubbed) serves a resource iff it needs no permission and is of a redirectable kind, for all 256 permission bytes x 13 kinds; thorough adds the +js(...) separator scan. Thin claim: the argument-literal encoding and the dependency walk are outside.",
-    level_note="Partial and thin. Decided: PermissionMask::is_injectable_by / is_default / union for all pairs (exhaustive by the solver); the permission + kind gate of ResourceStorage::get_redirect_resource downstream of the name lookup (C18.redirect_gate). Outside: stringify_arg (no result in 12 min at 1 byte), dependency graph walk (HashMap<String,Resource>), template patching (regex), per-host merge.",
+    level_note="Partial and thin. Decided: PermissionMask::is_injectable_by / is_default / union for all pairs (exhaustive by the solver); the permission + kind gate of ResourceStorage::get_redirect_resource and the scriptlet/dependency gate get_permissioned_resource, both downstream of the name lookup (C18.redirect_gate, C18.scriptlet_gate). Outside: stringify_arg (no result in 12 min at 1 byte), dependency graph walk (HashMap<String,Resource>), template patching (regex), per-host merge.",
     outside=["argument literal encoding (stringify_arg)", "dependency graph walk (HashMap<String,Resource>)", "template patching (regex)", "per-host merge"],
     assumptions=["every permission decision in the crate is a call to is_injectable_by/is_default (read, not proved)"],
 )
